@@ -119,6 +119,9 @@ func c20Engine() *liquid.Engine {
 }
 
 var c20Fixed = []string{
+	// literal text of a page and more in one piece (one text token, one Write), between and after tags
+	strings.Repeat("p", 4096) + "{{ n }}" + strings.Repeat("q", 5000) + "{% if t %}" + strings.Repeat("0123456789", 900) + "{% endif %}tail", "{{ s }}" + strings.Repeat("long text ", 1000),
+	"{% for i in (1..2) %}" + strings.Repeat("x", 4200) + "{{ i }}{% endfor %}" + strings.Repeat("y", 8192),
 	// loops in which an earlier iteration was cut short by continue (or an inner loop left by break) before the failing write
 	"{% for i in (1..4) %}{% if i == 1 %}{% continue %}{% endif %}<{{ i }}>{% endfor %}", "{% for i in (1..3) %}{% for j in (1..2) %}{% if j == 1 %}{% continue %}{% endif %}{{ i }}{{ j }};{% endfor %}|{% endfor %}end",
 	"{% tablerow i in (1..4) cols: 2 %}{% if i == 2 %}{% continue %}{% endif %}{{ i }}{% endtablerow %}", "{% for i in (1..3) %}{% for j in (1..3) %}{% if j == 2 %}{% break %}{% endif %}{{ j }}{% endfor %}<{{ i }}>{% endfor %}",
